@@ -200,6 +200,24 @@ def run(tier, v):
             for nw, bs in ((1, 1), (2, 8)):
                 pool_lines.append({"id": len(pool_lines), "crate": "tls", "workers": nw, "queue": 64, "batch": bs, "timeout_ms": 5, "gap_us": 40000, "dispatchers": [frames], "matcher": False, "perturb": 0})
                 pmeta.append((hi, segs, nw, bs))
+    # several connections at once, their segments interleaved, the pool's connection capacity exactly the number of connections
+    # (the configured capacity is what the caller sized for the whole pool: no worker may run out of room below it)
+    step = max(1, len(hellos) // 7)
+    group = [hi for hi in range(0, len(hellos), step)][:6]
+    for gi, (nw, bs) in enumerate(((2, 1), (3, 4), (4, 8), (8, 2))):
+        per = []
+        for ci, hi in enumerate(group):
+            h = hellos[hi]
+            cuts = [len(h) // 3, len(h) // 3, len(h) - 2 * (len(h) // 3)]
+            fr, p = [], 0
+            for n in cuts:
+                fr.append(tcp_frame(h[p:p + n], sport=43000 + gi * 50 + ci, src=(10, 9, 1 + gi, 1 + ci), seq=1 + p))
+                p += n
+            per.append(fr)
+        frames = [per[ci][k] for k in range(3) for ci in range(len(group))]
+        pool_lines.append({"id": len(pool_lines), "crate": "tls", "workers": nw, "queue": 64, "batch": bs, "timeout_ms": 5, "gap_us": 300, "cap": len(group),
+                           "dispatchers": [frames], "matcher": False, "perturb": 0})
+        pmeta.append((group, "interleaved", nw, bs))
     preq = os.path.join(wd, "pool.req")
     vlib.write_ndjson(preq, pool_lines)
     pout = os.path.join(wd, "pool.out")
@@ -212,6 +230,13 @@ def run(tier, v):
             continue
         n_pool += 1
         got = [hashlib.sha1(json.dumps(r_["sig"], sort_keys=True).encode()).hexdigest() for r_ in o["results"]]
+        if segs == "interleaved":
+            if sorted(got) != sorted(base[x] for x in hi):
+                v.violation({"api": "worker pool (tls), %d workers, batch %d, connection capacity %d" % (nw, bs, len(hi)), "connections": len(hi),
+                             "segments": "each ClientHello in three segments, the connections interleaved segment by segment",
+                             "expected": "one result per connection, identical to its one-segment result", "observed_results": len(got),
+                             "connections_without_result": len([x for x in hi if base[x] not in got])})
+            continue
         if got != [base[hi]]:
             v.violation({"api": "worker pool (tls), %d worker(s), batch %d, 40 ms between segments, idle timeout 5 ms" % (nw, bs), "hello": hellos[hi].hex(), "segments": segs,
                          "expected": "exactly one result, identical to the one-segment result", "observed_results": len(got), "identical": got == [base[hi]]})
